@@ -18,7 +18,7 @@ RULE = ('sem: documents built from definitions (0-3 parameters, optional default
         'word inside actual arguments; route: the same definitions in the document, in the defs '
         'option and in an \\LTinput file: equal text, positions shifted by a constant, the '
         'definitions leave no text.')
-BOUNDS = {'quick': '46 documents x symbolic offsets; holes <= 2 letters; 12 route documents',
+BOUNDS = {'quick': '52 documents x symbolic offsets; holes <= 2 letters; 12 route documents',
           'thorough': 'same + 0-9 parameters, holes <= 3'}
 OUTSIDE = 'delimited \\def parameters, recursive definitions (as in the property)'
 ASSUMPTIONS = ['reference substitution of vf/docs.py (Defn.call)']
@@ -88,6 +88,19 @@ DOCS = {
     'arg_with_math': ['cat', defs(M2), call(M2, ['cat', A, ' ', ['inline_math', 'x', 'en', ['$', '$'], 1]],
                                             ['inline_math', 'y', 'en', ['$', '$'], 0])],
     'nine': ['cat', defs(M9), A, ' ', call(M9, *[T(c) for c in 'abcdefghi']), ' ', B],
+    # a parameter directly followed by a digit: #12 is parameter 1 and the character 2
+    'digit_after_param': ['cat', defs(D('mq', 1, [1, '2'])), A, ' ', call(D('mq', 1, [1, '2']), B), ' ', C],
+    'digit_after_param_two': ['cat', defs(D('mr', 2, ['v', 1, '.', 2, '0s'])), A, ' ',
+                              call(D('mr', 2, ['v', 1, '.', 2, '0s']), T('x'), T('y')), ' ', C],
+    'digit_after_param_def': ['cat', defs(D('ms', 1, ['9', 1, '1', 1], None, 'def')), A, ' ',
+                              call(D('ms', 1, ['9', 1, '1', 1], None, 'def'), B), ' ', C],
+    # detached text is expanded with the definitions in force at the call
+    'footnote_then_redefine': ['cat', defs(R1), A, ['footnote', ['cat', T('see '), call(R1, B)]], ' ',
+                               defs(R2), call(R2, C)],
+    'caption_then_redefine': ['cat', defs(R1), A, ['footnote', ['cat', T('cap '), call(R1, B)], 'caption', 'sh'],
+                              ' ', defs(R2), call(R2, C)],
+    'footnote_before_def': ['cat', A, ['footnote', ['cat', T('F '), ['unknown', 'mo', B]]], ' ', defs(M1),
+                            call(M1, C)],
     'layout': ['cat', defs(M2), A, '\n', call(M2, B, C), '\n', A, '\n\n', call(M2, A, B)],
 }
 
